@@ -1,0 +1,31 @@
+//go:build verif
+// +build verif
+
+package config
+
+import (
+	"context"
+
+	"github.com/samaritan-proxy/samaritan/pb/api"
+	"github.com/samaritan-proxy/samaritan/pb/common"
+)
+
+// VerifDiscovery is the whole discovery client (dependencies, service configs, service
+// endpoints) over a stub supplied by the verification harness, so that dependency updates
+// travel the real way: dependency stream -> wrapped hook -> subscription clients -> streams.
+type VerifDiscovery struct{ c *discoveryClient }
+
+func VerifNewDiscovery(stub api.DiscoveryServiceClient) *VerifDiscovery {
+	return &VerifDiscovery{c: newDiscoveryClient(stub)}
+}
+
+// Run starts the three loops and returns when ctx is done and they have ended.
+func (v *VerifDiscovery) Run(ctx context.Context) {
+	done := make(chan struct{}, 3)
+	go func() { v.c.StreamSvcConfigs(ctx, nil); done <- struct{}{} }()
+	go func() { v.c.StreamSvcEndpoints(ctx, nil); done <- struct{}{} }()
+	go func() { v.c.StreamDependencies(ctx, &common.Instance{Id: "verif"}, nil); done <- struct{}{} }()
+	for i := 0; i < 3; i++ {
+		<-done
+	}
+}
